@@ -1103,8 +1103,9 @@ class PrepareAst:
                 else:
                     block = self.apply(inp.orelse)
 
-                block.add_bound_statement(test)
-                return block
+                # the statements executed while the (constant) test was
+                # evaluated are part of the program, emit them before the chosen branch
+                return out.CodeBlock([test, block])
             else:
                 assert (
                     self._context is ContextType.SEQUENTIAL
